@@ -2,6 +2,7 @@ import Vore.Driver.Print
 import Vore.Driver.OpsParse
 import Vore.Driver.OpsC04
 import Vore.Driver.OpsC05
+import Vore.Driver.OpsC07
 import Vore.Driver.OpsC20
 import Vore.Driver.OpsLex
 import Vore.Driver.OpsC17
@@ -15,6 +16,6 @@ Each property that needs its own line-protocol operations defines, in
 -/
 namespace Vore.Driver
 
-def extraOps : List (String → List String → Option String) := [handleParse, handleC04, handleC05, handleC20, handleLex, handleC17, handleC18]
+def extraOps : List (String → List String → Option String) := [handleParse, handleC04, handleC05, handleC07, handleC20, handleLex, handleC17, handleC18]
 
 end Vore.Driver
